@@ -32,7 +32,6 @@ from dataclasses import dataclass
 from enum import auto
 from enum import Flag
 from enum import unique
-import re
 from typing import Any
 from typing import Callable
 from typing import Collection
@@ -55,6 +54,7 @@ from .. import exc
 from .. import inspection
 from .. import sql
 from .. import util
+from ..sql import compiler
 from ..sql import operators
 from ..sql import schema as sa_schema
 from ..sql.cache_key import _ad_hoc_cache_key_from_args
@@ -83,7 +83,9 @@ def _escape_reflected_sqltext(sqltext: str) -> str:
     that ``:name`` inside of it is not taken for a bound parameter when
     the text is made into a :func:`_sql.text` construct."""
 
-    return re.sub(r"(?<![:\w]):(\w+)(?!:)", r"\\:\1", sqltext)
+    # an already present backslash-colon keeps its backslash
+    sqltext = compiler.BIND_PARAMS_ESC.sub(r"\\\\\1", sqltext)
+    return compiler.BIND_PARAMS.sub(r"\\:\1", sqltext)
 
 
 @util.decorator
